@@ -15,6 +15,7 @@ pub mod c10;
 pub mod c13;
 pub mod c18;
 pub mod c19;
+pub mod c20;
 pub mod selftest;
 
 #[derive(Clone, Debug)]
@@ -270,6 +271,7 @@ pub fn dispatch(cfg: &RunCfg, rep: &mut Report) -> bool {
         "C13" => c13::run(cfg, rep),
         "C18" => c18::run(cfg, rep),
         "C19" => c19::run(cfg, rep),
+        "C20" => c20::run(cfg, rep),
         "ST" => selftest::run(cfg, rep),
         _ => return false,
     }
